@@ -413,6 +413,9 @@ def response_verdict(raw, method=b"GET"):
     return None
 
 
+STREAMING = {}   # addon policies that switch streaming on (used by family E of the bounded inputs)
+
+
 def addon_policies():
     def set_req_content(name, f, i):
         if name == "request":
@@ -442,6 +445,17 @@ def addon_policies():
         if name == "response":
             f.response.content = b""
 
+    def stream_request(name, f, i):
+        if name == "requestheaders":
+            f.request.stream = True
+
+    def stream_both(name, f, i):
+        if name == "requestheaders":
+            f.request.stream = True
+        if name == "responseheaders":
+            f.response.stream = True
+
+    STREAMING.update({"req.stream": stream_request, "both.stream": stream_both})
     return [("none", None), ("req.content", set_req_content), ("req.header", set_req_header), ("req.header.early", set_req_header_early),
             ("resp.content", set_resp_content), ("resp.header", set_resp_header), ("req.content.empty", empty_req_content),
             ("resp.content.empty", empty_resp_content)]
@@ -498,23 +512,41 @@ def bounded(tier, seed):
         raws = [mk_request(m, target=b"http://example.com/one", lines=lines, body=body), mk_request(b"GET", target=b"http://example.com/two")]
         cases.append((f"D:{alab}:{lab}:{rlab}:{m.decode()}", raws, [(raw, close), (b"HTTP/1.1 200 OK\r\nContent-Length: 6\r\n\r\nsecond", False)], alab, None))
     addons = dict(addon_policies())
+    # (E) streamed messages (flow.request.stream set in requestheaders / stream_large_bodies): the head goes upstream before the body
+    #     has been read; it must still be the recorded head (e.g. without the Expect: 100-continue mitmproxy answered itself)
+    addons.update(STREAMING)
+    str_req = [x for x in REQ_FRAMINGS if x[0] in ("cl3", "te-chunked", "te-chunked-2", "expect", "ce-gzip", "cl-smuggle", "none")]
+    str_req.append(("expect-chunked", [b"Transfer-Encoding: chunked", b"Expect: 100-continue"], chunked(b"ab", b"c")))
+    str_req.append(("expect-mixed-case", [b"Content-Length: 3", b"expect: 100-Continue"], b"abc"))
+    str_resp = [x for x in response_variants() if x[0] in ("cl3", "te-chunked", "http10-close")]
+    for (lab, lines, body), (rlab, raw, close), how in itertools.product(str_req, str_resp, ["req.stream", "both.stream", "stream_large_bodies"]):
+        raws = [mk_request(b"POST", target=b"http://example.com/one", lines=lines, body=body), mk_request(b"GET", target=b"http://example.com/two")]
+        optkw = {"store_streamed_bodies": True}
+        if how == "stream_large_bodies":
+            optkw["stream_large_bodies"] = "1"
+        cases.append((f"E:{how}:{lab}:{rlab}", raws, [(raw, close), (b"HTTP/1.1 200 OK\r\nContent-Length: 6\r\n\r\nsecond", False)],
+                      how if how in STREAMING else "none", None, optkw))
     if tier == "quick":
         deliveries = ["whole", "bytes"]
     else:
         deliveries = ["whole", "bytes", "heads"]
-    for label, raws, responses, alab, amb in cases:
+    for case in cases:
+        label, raws, responses, alab, amb = case[:5]
+        options = R.get_options(**case[5]) if len(case) > 5 else None
         stream = b"".join(raws)
         for dl in deliveries:
             if dl == "whole":
                 segs, split = [stream], None
             elif dl == "bytes":
-                if tier == "quick" and label[0] in "BD" and rnd.random() < 0.6:
+                if tier == "quick" and label[0] in "BDE" and rnd.random() < 0.6:
                     continue
                 segs, split = [stream[i:i + 1] for i in range(len(stream))], (lambda x: [x[i:i + 1] for i in range(len(x))])
             else:
                 segs, split = list(raws), (lambda x: [x[:len(x) // 2], x[len(x) // 2:]])
-            ex = R.Exchange(segs, responses, server_splitter=split, addon=addons[alab])
+            ex = R.Exchange(segs, responses, server_splitter=split, addon=addons[alab], options=options)
             inp = {"case": label, "delivery": dl, "client_stream": stream.decode("latin-1"), "responses": [r.decode("latin-1") for r, _ in responses], "addon": alab}
+            if len(case) > 5:
+                inp["options"] = case[5]
             b.case((label, dl), nontrivial=bool(ex.flows))
             meths = [x.split(b" ", 1)[0] for x in raws]
             check_exchange(b, ex, raws, label, inp, amb, input_classes(raws, responses, alab, meths))
@@ -1401,3 +1433,69 @@ def s_consume_request_eom(vc):
         vc.ensure("no_data_event_for_an_empty_body", len(datas) == 0)
     vc.ensure("ends_with_end_of_message", len(sends) > 0 and HS_.is_send(sends[-1], "RequestEndOfMessage"))
     vc.ensure("order", HS_.kinds(sends) == ["Send(RequestHeaders)"] + ["Send(RequestData)"] * len(datas) + ["Send(RequestEndOfMessage)"])
+
+
+# ---------------------------------------------------------------------------------------------------------------------
+# request-head path (HttpStream.state_wait_for_request_headers): whenever the head is written upstream — immediately for a
+# streamed request, later for a buffered one — it carries the header fields of the recorded flow *as they are at that
+# moment and stay afterwards*; in particular `Expect: 100-continue`, once mitmproxy has answered it itself, is gone from
+# the flow before the head can leave.
+
+@scenario("request_head_path.forwarded_fields_are_the_recorded_fields",
+          functions=[HTTPL + "HttpStream.state_wait_for_request_headers", HTTPL + "HttpStream.start_request_stream", HTTPL + "HttpStream.make_server_connection"])
+def s_request_head_path(vc):
+    from props import httpstream as HS_
+    expect = vc.case("expect", [None, b"100-continue", b"100-Continue"])
+    streamed = vc.case("streamed", [True, False])          # the addon (or stream_large_bodies) asks for streaming in requestheaders
+    end_stream = vc.case("end_stream", [False, True])
+    x_name, x_val = vc.sym_bytes("xn"), vc.sym_bytes("xv")
+    vc.assume(And(lower_(vc, x_name) != b"expect", lower_(vc, x_name) != b"host"))
+    fields = [(b"Host", b"example.com"), (x_name, x_val)] + ([(b"Expect", expect)] if expect else [])
+    req = HS_.mk_request(vc, headers=HS_.mk_headers(vc, fields), method=b"POST", authority=b"example.com:80")
+    st, flow, client, server = HS_.mk_stream(vc, "state_wait_for_request_headers", "state_uninitialized", request=req, live=False, server_open=False)
+    vc.summary(HTTPL + "validate_request", lambda v, mode, request, flag: v.lift(None))     # validation has its own contracts above
+    server2 = mk_server(vc, name="server2")
+    at_send = []
+    order = []
+
+    def fields_now(r):
+        h = r.data.headers
+        return h.fields["fields"] if vc.mode == "sym" else h.fields
+
+    def on_yield(cmd):
+        n = cmd.cls.__name__ if isinstance(cmd, SObj) else type(cmd).__name__
+        if n == "GetHttpConnection":
+            return (server2, None)
+        if n == "HttpRequestHeadersHook" and streamed:
+            cmd.flow.request.stream = True
+        if HS_.is_send(cmd, "RequestHeaders"):
+            at_send.append((cmd.event.request, fields_now(cmd.event.request)))
+            order.append("head_upstream")
+        if HS_.is_send(cmd, "ResponseHeaders", client):
+            order.append("100_to_client")
+        return None
+
+    ev = HS_.ev(vc, "RequestHeaders", request=req, end_stream=end_stream, replay_flow=flow)
+    out = vc.call(HTTPL + "HttpStream.state_wait_for_request_headers", st, ev, on_yield=on_yield)
+    vc.ensure("no_exception", out.ok)
+    if not out.ok:
+        return
+    final = fields_now(flow.request)
+    items = lambda t: [tuple(x.items) if isinstance(x, STuple) else tuple(x) for x in (t.items if isinstance(t, STuple) else t)]
+    final_items = items(final)
+    answered = "100_to_client" in order
+    vc.ensure("expect.answered_iff_present", answered == (expect is not None))
+    if expect is not None:
+        vc.ensure("expect.removed_from_the_recorded_flow", And(final_items[0][0] == b"Host", final_items[1][0] == x_name, final_items[1][1] == x_val) if len(final_items) == 2 else False)
+    else:
+        vc.ensure("fields_untouched", len(final_items) == 2)
+    goes_now = streamed and not end_stream
+    vc.ensure("head_leaves_now_iff_streamed", len(at_send) == (1 if goes_now else 0))
+    if goes_now and len(at_send) == 1:
+        r, f = at_send[0]
+        vc.ensure("forwarded.request_is_the_flows", r is flow.request)
+        fi = items(f)
+        # (Headers keeps its fields in an immutable tuple that is replaced on every edit: same tuple object <=> no edit in between)
+        vc.ensure("forwarded.fields_equal_recorded_fields", f is final and len(fi) == len(final_items))
+        if expect is not None:
+            vc.ensure("forwarded.no_expect_after_own_100_continue", order.index("100_to_client") < order.index("head_upstream") and len(fi) == 2)
